@@ -487,6 +487,10 @@ def run(rep, tier, seed, replay=None):
         got = [float(mi.group(i)) for i in (1, 2, 3)]
         rep.cov['inset_witness'] = {'theorem': 'C07_inset_refuted', 'model': [30.0, 20.0, 20.0], 'implementation': got,
                                     'overlap_on_implementation': got[0] + got[1] > got[2] and got[0] < got[2] + 20.0}
+        kf = [k for k in known_findings('C07') if k.get('id') == 'relative-inset-overlap' and k.get('status') == 'known']
+        if kf and rep.cov['inset_witness']['overlap_on_implementation']:
+            rep.known.append('relative-inset-overlap reproduced: first item at x=%s (%s wide), second at x=%s | %s'
+                             % (got[0], got[1], got[2], kf[0]['line'].replace('known: property=C07 relative-inset-overlap ', '')))
         if got != [30.0, 20.0, 20.0]:
             rep.add_broken('correspondence', 'inset witness of C07_inset_refuted: model vs implementation',
                            'model: first item at 30 (20 wide), second at 20; implementation: %r' % got)
